@@ -56,9 +56,9 @@ def showApplied (l : List Cmd) : String :=
   let w := (l.filter (·.write)).map (·.tok)
   if w.isEmpty then "-" else ",".intercalate w
 
-def parseCfg (s : String) : Option Cfg :=
+def parseCfg (s : String) : Option (Cfg × Bool) :=
   match s.toList with
-  | [a, b, c, d, e] => some ⟨a = '1', b = '1', c = '1', d = '1', e = '1'⟩
+  | [a, b, c, d, e, f] => some (⟨a = '1', b = '1', c = '1', d = '1', e = '1'⟩, f = '1')
   | _ => none
 
 def finish (r : Outcome × World) : String :=
@@ -68,14 +68,14 @@ def handle (line : String) : String :=
   match line.splitOn " " with
   | ["run", cfg, fam, op, v, nret, script, phases] =>
     match parseCfg cfg, parseVal v, nret.toNat?, parseScript script, parsePhases phases with
-    | some cfg, some v, some nret, some sc, some phs =>
-      match prog cfg fam op phs v nret with
+    | some (cfg, tlv), some v, some nret, some sc, some phs =>
+      match prog cfg tlv fam op phs v nret with
       | some p => finish (run cfg p 0 ⟨sc, [], []⟩)
       | none => "no-program"
     | _, _, _, _, _ => "bad-op"
   | ["t3format", cfg, nmaxb, nbr, nbw, wipe, script] =>
     match parseCfg cfg, nmaxb.toNat?, nbr.toNat?, nbw.toNat?, parseScript script with
-    | some cfg, some a, some b, some c, some sc =>
+    | some (cfg, _), some a, some b, some c, some sc =>
       finish (run cfg (t3Format cfg ⟨a, b, c⟩ (wipe = "1")) 0 ⟨sc, [], []⟩)
     | _, _, _, _, _ => "bad-op"
   | _ => "bad-op"
